@@ -323,6 +323,13 @@ func runsFor(prop, tier string) []run {
 			}(), pick(26, 28), minutes(pickf(0.7, 4))},
 			{"rebuild-with-a-file-transfer-dying-half-way", mk(withData, []string{"RB", "Step", "XferFail"}, 2, 0, 0, 3), pick(30, 60), minutes(pickf(0.6, 6))},
 		}
+	case "C06ctl":
+		// the volume-level revert (Controller.Revert: name -> disk file, every replica reverted, frontend restarted) on real
+		// replicas, to EVERY snapshot on the chain, with snapshot names of which the older ones are prefixes of the newer
+		// ones; afterwards the volume reads back exactly the image the snapshot captured, on every replica
+		c := eb.Cfg{RF: 2, N: 2, Alphabet: []string{"W0", "Snap0", "RevertTo", "R"}, Oracles: []string{"c06", "c04", "c02", "c18"}, Drain: true, Real: true, PrefixNames: true,
+			MaxWrites: 5, MaxSnaps: 3, MaxReads: 2, MaxReverts: 2, InitOps: append(append([]string{}, rw2...), "W:0", "Snap:0", "W:0")}
+		return []run{{"rf2-real-replicas-revert-to-every-snapshot-prefix-names", c, pick(5, 7), minutes(pickf(0.8, 5))}}
 	case "C16ctl":
 		mk := func(rf int, init []string) eb.Cfg {
 			return eb.Cfg{RF: rf, N: rf, Alphabet: []string{"Resize", "W0", "R", "MonFail", "MonWake", "ERR", "Remove", "Add", "Sync", "Verify"}, Oracles: []string{"c16", "c04", "c18"}, Drain: false,
@@ -548,6 +555,9 @@ func check(prop string) int {
 	}
 	if prop == "C16ctl" {
 		realProp, evName = "C16", "C16-ctl.part"
+	}
+	if prop == "C06ctl" {
+		realProp, evName = "C06", "C06-ctl.part"
 	}
 	tier := kernel.Tier()
 	runs := runsFor(prop, tier)
